@@ -23,9 +23,9 @@ PROFILES = {"C04": "simkit.profiles.c04", "C05": "simkit.profiles.c05", "C16": "
 
 # runs per tier (fixed counts; the wall cap only stops submission and is reported when it bites)
 TIERS = {
-    "C04": {"quick": (9300, 150), "thorough": (200000, 2400)},
-    "C05": {"quick": (42000, 150), "thorough": (1200000, 2400)},
-    "C16": {"quick": (31000, 150), "thorough": (900000, 2400)},
+    "C04": {"quick": (9000, 300), "thorough": (200000, 2400)},
+    "C05": {"quick": (42000, 300), "thorough": (1200000, 2400)},
+    "C16": {"quick": (31000, 300), "thorough": (900000, 2400)},
 }
 MAX_MINIMISED = int(os.environ.get("VERIF_MAX_MIN", "10"))
 
